@@ -733,7 +733,7 @@ pub fn run(args: &Args) -> Option<i32> {
     mon.assume("only legacy SPL-token mints are used as treasury tokens (the world builder creates no Token-2022 mints)");
     mon.assume("bank balances come from deposit_to_treasury_vault after the receiver vault was funded by state injection (fund_ata) or by the real claim_fees");
     let shards = args.scale(64, 512);
-    let hist_per_shard = args.scale(25, 30);
+    let hist_per_shard = args.scale(50, 30);
     let seed = args.seed;
     run_shards(&mut mon, args.threads, shards, |shard, m| {
         let base = base_world();
